@@ -3,6 +3,7 @@
   react to a change of unit `x ↦ a·x + b`, `a > 0`.  The property theorems are in `Props/C04.lean`.
 -/
 import IbicusModel.Lemmas.StatsAffine
+import IbicusModel.Lemmas.C02Shift
 import IbicusModel.Lemmas.Lift
 import IbicusModel.Model.Debiasers
 
@@ -103,6 +104,19 @@ theorem qdmSteps_affine {F : LocScaleFam} {a : Rat} (ha : 0 < a) (b : Rat) (em :
   simp only [qdmCensor, qdmCore, LocScaleFam.toFamily]
   rw [show affine a b Fw = affine a b Fw from rfl, ecdf1_map_affine ha b em Fw x,
     Lemmas.Family.ppf_affine, Lemmas.Family.ppf_affine]
+  ring
+
+/-- the same for an arbitrary empirical cdf `E sample point` that does not see the unit on the sample at hand
+    (e.g. the histogram cdf of `ecdf_method = "kernel_density"` under the oracle law for the bins) -/
+theorem qdmStepsG_affine {F : LocScaleFam} (a b : Rat) (E : List Rat → Rat → Rat) (t : Rat)
+    (Fw : List Rat) (fo fh : Rat × Rat) (hE : ∀ y, E (affine a b Fw) (a * y + b) = E Fw y) :
+    qdmStepsG F.toFamily .absolute E t none (affine a b Fw) (a * fo.1 + b, a * fo.2) (a * fh.1 + b, a * fh.2)
+      = affine a b (qdmStepsG F.toFamily .absolute E t none Fw fo fh) := by
+  unfold qdmStepsG
+  apply affine_map_congr
+  intro x _
+  simp only [qdmCensor, qdmCore, LocScaleFam.toFamily]
+  rw [hE x, Lemmas.Family.ppf_affine, Lemmas.Family.ppf_affine]
   ring
 
 /-! ### ScaledDistributionMapping (absolute) -/
@@ -209,16 +223,40 @@ end sdm
 /-! ### CDFt -/
 
 /-- what the theorem needs from the pair (empirical cdf `E`, inverse empirical cdf `Q`) -/
-structure EQAffineLaws (a b : Rat) (E Q : List Rat → Rat → Rat) : Prop where
-  E_inv : ∀ x y, E (affine a b x) (a * y + b) = E x y
-  E_le_one : ∀ x y, E x y ≤ 1
+structure EQAffineLaws (a b : Rat) (D : List Rat → Prop) (E Q : List Rat → Rat → Rat) : Prop where
+  /-- on its domain `D` (non-empty samples; for the histogram cdf: non-constant samples) the cdf is unit-free -/
+  E_inv : ∀ x y, D x → E (affine a b x) (a * y + b) = E x y
+  E_le_one : ∀ x y, D x → E x y ≤ 1
   Q_aff : ∀ x p, x ≠ [] → p ≤ 1 → Q (affine a b x) p = a * Q x p + b
 
 /-- every pair of methods ibicus offers (2 × 9; `kernel_density` is not modelled) satisfies the laws -/
 theorem eqAffineLaws {a : Rat} (ha : 0 < a) (b : Rat) (em : EcdfMethod) (im : IecdfMethod) :
-    EQAffineLaws a b (ecdf1 em) (iecdf1 im) where
-  E_inv := ecdf1_map_affine ha b em
-  E_le_one := ecdf1_le_one em
+    EQAffineLaws a b (fun x => x ≠ []) (ecdf1 em) (iecdf1 im) where
+  E_inv := fun x y _ => ecdf1_map_affine ha b em x y
+  E_le_one := fun x y _ => ecdf1_le_one em x y
+  Q_aff := fun _ _ hx hp => iecdf1_map_affine ha b im hx hp
+
+/-- the oracle law of the histogram bins of `ecdf_method = "kernel_density"` (`bins x = np.histogram(x, bins="auto")`),
+    on non-constant samples (for a constant sample numpy uses the fixed range `[v − 0.5, v + 0.5]`, which is in data units):
+    well-shaped, and **the bin edges carry the unit while the counts do not change** — numpy's `auto` rule takes its bin
+    width from the range and the inter-quartile range of the data, both of which scale with the unit -/
+structure BinsAffine (a b : Rat) (bins : List Rat → List Rat × List Nat) : Prop where
+  laws : ∀ x : List Rat, minQ x < maxQ x → HistLaws (bins x).1 (bins x).2
+  aff : ∀ x : List Rat, minQ x < maxQ x → bins (affine a b x) = (affine a b (bins x).1, (bins x).2)
+
+theorem histE_affine {a : Rat} (ha : 0 < a) (b : Rat) (bins : List Rat → List Rat × List Nat) (hb : BinsAffine a b bins)
+    {x : List Rat} (hx : minQ x < maxQ x) (y : Rat) :
+    Lemmas.C02.histE bins (affine a b x) (a * y + b) = Lemmas.C02.histE bins x y := by
+  unfold Lemmas.C02.histE
+  rw [hb.aff x hx]
+  exact Lemmas.C02.ecdfHist1_affine ha b _ _ y (hb.laws x hx).len
+
+/-- **histogram ecdf × every inverse-ecdf method** satisfies the laws, under the oracle law for the bins -/
+theorem eqAffineLaws_hist {a : Rat} (ha : 0 < a) (b : Rat) (bins : List Rat → List Rat × List Nat)
+    (hb : BinsAffine a b bins) (im : IecdfMethod) :
+    EQAffineLaws a b (fun x => minQ x < maxQ x) (Lemmas.C02.histE bins) (iecdf1 im) where
+  E_inv := fun _ y hx => histE_affine ha b bins hb hx y
+  E_le_one := fun x y hx => (ecdfHist_range (hb.laws x hx) y).2
   Q_aff := fun _ _ hx hp => iecdf1_map_affine ha b im hx hp
 
 theorem cdftShifted_affine (a b : Rat) (d : DeltaShift) (hd : d ≠ .multiplicative) {obs H : List Rat}
@@ -238,8 +276,30 @@ theorem cdftShifted_ne_nil (d : DeltaShift) (obs H : List Rat) {F : List Rat} (h
     (cdftShifted d obs H F).2 ≠ [] := by
   cases d <;> simpa [cdftShifted] using hf
 
-theorem cdftMappingG_affine {a b : Rat} {E Q : List Rat → Rat → Rat} (laws : EQAffineLaws a b E Q)
-    (d : DeltaShift) (hd : d ≠ .multiplicative) {obs H F : List Rat} (ho : obs ≠ []) (hh : H ≠ []) (hf : F ≠ []) :
+theorem cdftShifted_fst_ne_nil (d : DeltaShift) (obs : List Rat) {H : List Rat} (hh : H ≠ []) (F : List Rat) :
+    (cdftShifted d obs H F).1 ≠ [] := by
+  cases d <;> simpa [cdftShifted] using hh
+
+/-- the additive shift of CDFt keeps a non-constant sample non-constant -/
+theorem cdftShifted_nonconst (d : DeltaShift) (hd : d ≠ .multiplicative) (obs : List Rat) {H F : List Rat}
+    (hH : minQ H < maxQ H) (hF : minQ F < maxQ F) :
+    minQ (cdftShifted d obs H F).1 < maxQ (cdftShifted d obs H F).1 ∧
+    minQ (cdftShifted d obs H F).2 < maxQ (cdftShifted d obs H F).2 := by
+  have key : ∀ (c : Rat) (x : List Rat), minQ x < maxQ x → minQ (x.map (fun v => v + c)) < maxQ (x.map (fun v => v + c)) := by
+    intro c x hx
+    have hne : x ≠ [] := by
+      intro h0; rw [h0] at hx; simp [minQ, maxQ] at hx
+    have hm : Monotone (fun v : Rat => v + c) := fun _ _ h => by simpa using h
+    rw [minQ_map_mono hm hne, maxQ_map_mono hm hne]
+    linarith
+  cases d with
+  | multiplicative => exact absurd rfl hd
+  | no_shift => exact ⟨hH, hF⟩
+  | additive => exact ⟨key _ H hH, key _ F hF⟩
+
+theorem cdftMappingG_affine {a b : Rat} {D : List Rat → Prop} {E Q : List Rat → Rat → Rat} (laws : EQAffineLaws a b D E Q)
+    (d : DeltaShift) (hd : d ≠ .multiplicative) {obs H F : List Rat} (ho : obs ≠ []) (hh : H ≠ []) (hf : F ≠ [])
+    (hD1 : D (cdftShifted d obs H F).1) (hD2 : D (cdftShifted d obs H F).2) :
     cdftMappingG E Q d (affine a b obs) (affine a b H) (affine a b F)
       = affine a b (cdftMappingG E Q d obs H F) := by
   unfold cdftMappingG
@@ -248,10 +308,12 @@ theorem cdftMappingG_affine {a b : Rat} {E Q : List Rat → Rat → Rat} (laws :
   simp only
   generalize hHF : cdftShifted d obs H F = HF
   have hF2 : HF.2 ≠ [] := by rw [← hHF]; exact cdftShifted_ne_nil d obs H hf
+  have hF1 : HF.1 ≠ [] := by rw [← hHF]; exact cdftShifted_fst_ne_nil d obs hh F
+  rw [hHF] at hD1 hD2
   -- stage 1: cdf values of the shifted future sample at its own points: unchanged
   have s1 : cdftStage1 E (affine a b HF.2) = cdftStage1 E HF.2 := by
     unfold cdftStage1
-    exact affine_map_inv a b _ _ _ (fun y _ => laws.E_inv HF.2 y)
+    exact affine_map_inv a b _ _ _ (fun y _ => laws.E_inv HF.2 y hD2)
   rw [s1]
   -- stage 2: quantiles of obs: carry the unit
   have s2 : cdftStage2 Q (affine a b obs) (cdftStage1 E HF.2) = affine a b (cdftStage2 Q obs (cdftStage1 E HF.2)) := by
@@ -261,13 +323,13 @@ theorem cdftMappingG_affine {a b : Rat} {E Q : List Rat → Rat → Rat} (laws :
     intro p hp
     unfold cdftStage1 at hp
     obtain ⟨y, _, rfl⟩ := List.mem_map.mp hp
-    exact laws.Q_aff obs _ ho (laws.E_le_one _ _)
+    exact laws.Q_aff obs _ ho (laws.E_le_one _ _ hD2)
   rw [s2]
   -- stage 3: cdf values under the shifted historical sample: unchanged
   have s3 : cdftStage3 E (affine a b HF.1) (affine a b (cdftStage2 Q obs (cdftStage1 E HF.2)))
       = cdftStage3 E HF.1 (cdftStage2 Q obs (cdftStage1 E HF.2)) := by
     unfold cdftStage3
-    exact affine_map_inv a b _ _ _ (fun y _ => laws.E_inv HF.1 y)
+    exact affine_map_inv a b _ _ _ (fun y _ => laws.E_inv HF.1 y hD1)
   rw [s3]
   -- stage 4: quantiles of the shifted future sample: carry the unit
   unfold cdftStage4 affine
@@ -276,7 +338,7 @@ theorem cdftMappingG_affine {a b : Rat} {E Q : List Rat → Rat → Rat} (laws :
   intro p hp
   unfold cdftStage3 at hp
   obtain ⟨y, _, rfl⟩ := List.mem_map.mp hp
-  exact laws.Q_aff HF.2 _ hF2 (laws.E_le_one _ _)
+  exact laws.Q_aff HF.2 _ hF2 (laws.E_le_one _ _ hD1)
 
 /-! ### lifting: guarded window functions and the year loop with a per-run window function -/
 
